@@ -378,6 +378,13 @@ func execC11(c C11Case) *Failure {
 			return Failf("C11/newest-stream-ended", "the newest stream (generation %d) ended although its peer is still connected (history %s)", o.gen, c11History(c.Steps))
 		}
 	}
+	// a stream that has ended is not written to any more: its ResponseWriter must not be used after the handler returned
+	// (net/http has released it by then; a sender that found the stream before it ended crashes there or races with the server)
+	for _, s := range streams {
+		if _, _, _, _, _, late := s.lr.Snapshot(); late > 0 {
+			return Failf("C11/write-after-stream-ended", "generation %d was written to %d times after its handler had returned (history %s)", s.gen, late, c11History(c.Steps))
+		}
+	}
 	if byStream.Returned() || len(byStream.Events()) != 0 {
 		return Failf("C11/bystander-affected", "another session's stream ended or received %d frames", len(byStream.Events()))
 	}
